@@ -6,14 +6,12 @@
 (* With VIEW GenView (AtmGenTour*.cfg) hist is a BFS-shortest path to the   *)
 (* source state plus the step: a transition tour of the bounded model.      *)
 (* Without a VIEW (AtmGenAll.cfg) every history is a distinct state: all    *)
-(* paths up to MaxHist.                                                     *)
+(* paths up to MaxHist.  `loop` tells whether the transition left the model  *)
+(* state unchanged: lib/props/C18.py rides such transitions on the behaviour *)
+(* of a state-changing transition from the same source state.               *)
 EXTENDS Atm, Json, CSV, IOUtils
-
-PairSeq == [i \in 1..(Len(AcctSeq) * Len(KeySeq)) |->
-              <<AcctSeq[((i - 1) \div Len(KeySeq)) + 1], KeySeq[((i - 1) % Len(KeySeq)) + 1]>>]
-LvSeq(f) == [i \in 1..Len(PairSeq) |-> f[PairSeq[i]]]
 
 GenView == mvars
 EmitBehaviour ==
-    CSVWrite("%1$s", <<ToJson([policy |-> policy', init |-> LvSeq(init0'), steps |-> hist'])>>, IOEnv.QXV_GEN)
+    CSVWrite("%1$s", <<ToJson([policy |-> policy', init |-> LvSeq(init0'), steps |-> hist', loop |-> (mvars' = mvars)])>>, IOEnv.QXV_GEN)
 =============================================================================
